@@ -1009,8 +1009,9 @@ def _expand_and_align_list_array(
     mask[rows] = False
     mask = pa.array(mask)
 
-    # we can now construct the array — these offsets point into the source array
-    return pa.ListArray.from_arrays(offsets, lists.values, mask=mask)
+    # we can now construct the array — the offsets point into the lists' elements,
+    # flattened (.values would ignore the offset of a sliced array)
+    return pa.ListArray.from_arrays(offsets, lists.flatten(), mask=mask)
 
 
 def _id_index(ids: pa.ChunkedArray) -> pd.Index:
